@@ -15,6 +15,22 @@ Local(d), a prefix, a unit/stencil axis.  The rules:
              dimension gets that loop's index (not a default constant)
 
 Only tags are computed; no array contents, no index arithmetic.
+
+SOUNDNESS (audit, `# AUDIT:` comments below).  Every VIOLATED verdict of this engine is a statement about TAGS: "this axis is
+a Global(d) window and this subscript is a local index".  It is true of the code only when the tags are.  The engine therefore
+distinguishes two untyped values:
+
+  OTHER  a value the rules have no interest in and that the engine takes for a scalar (a literal, a loop counter of an untyped
+         range, a parameter or local that was never bound to anything the engine could not read);
+  UNK    the result of a construct the engine does NOT model (a call of a function it has no transfer function for, a subscript
+         of an untyped container, a comprehension / lambda / dict, an attribute it does not know, ...).  It may be an array of any
+         rank, a slice object, a sequence.  Every transfer function that meets UNK where the rank or the axis placement of its
+         result depends on it answers UNK again and records NO obligation about the affected axes.
+
+Numpy functions, array methods and array attributes are modelled by explicit tables; the fall-through of every table is UNK
+(never "element-wise", "same as the operand" or "no effect").  Keyword / star arguments are bound by name where the callee is
+known and make the call unmodelled otherwise.  Names bound by statements the engine does not interpret are forgotten (UNK); values
+that differ between the paths into a program point (branches, loop-carried values, handlers) are joined to OTHER / UNK.
 """
 from __future__ import annotations
 
@@ -28,6 +44,7 @@ DIMNAMES = {0: "r", 1: "theta", 2: "z", 3: "v"}
 
 # ---- tags (plain tuples)
 OTHER = ("other",)
+UNK = ("other", "?")          # not modelled: may be an array of any rank, a slice, a sequence, an object
 UNIT = ("1",)
 STENCIL = ("S",)
 
@@ -62,6 +79,8 @@ def wname(w):
 def tname(t):
     if not isinstance(t, tuple):
         return str(t)
+    if t == UNK:
+        return str(OTHER)          # callers recognise "not typed" by the text of OTHER
     if t[0] in ("lidx", "gidx", "coord", "dim", "start", "end"):
         return f"{t[0]}({DIMNAMES.get(t[1], t[1])})"
     if t[0] == "arr":
@@ -79,6 +98,92 @@ class Ctx:
         if self.dist_dims is None:
             return True
         return d in self.dist_dims
+
+
+# tags of integer scalars (index positions): a subscript item with one of these removes its axis
+_INDEX_KINDS = {"lit", "lidx", "gidx", "param", "start", "end", "size", "rank", "dim", "dim_at_value", "axis", "axis_of", "wrongstart"}
+# builtins whose result is a scalar whatever the engine knows about the argument
+_SCALAR_BUILTINS = {"int", "float", "len", "abs", "min", "max", "round", "bool", "complex"}
+_NONSCALAR_ANNOT = ("ndarray", "slice", "list", "tuple", "List", "Tuple", "Sequence", "Iterable", "dict", "Dict", "array")
+
+
+_LIST_MUTATORS = {"append", "extend", "insert", "pop", "remove", "sort", "reverse", "clear"}
+
+
+class _MuteChk:
+    """stands for the Check during a dry pass (loop-carried values): nothing is recorded"""
+
+    def __init__(self, chk):
+        self._chk = chk
+        self.functions = set()
+
+    def ob(self, *a, **k):
+        return None
+
+    def pat(self, *a, **k):
+        return None
+
+    def note(self, *a, **k):
+        return None
+
+    def floor(self, *a, **k):
+        return None
+
+    def __getattr__(self, k):
+        return getattr(self._chk, k)
+
+
+def _stored_names(nodes):
+    """(local names, self attributes) bound anywhere inside the statements / expressions `nodes`"""
+    names, attrs = set(), set()
+    for root in nodes:
+        for n in ast.walk(root):
+            if isinstance(n, ast.Name) and isinstance(n.ctx, (ast.Store, ast.Del)):
+                names.add(n.id)
+            elif isinstance(n, ast.Attribute) and isinstance(n.ctx, (ast.Store, ast.Del)) and isinstance(n.value, ast.Name) and n.value.id == "self":
+                attrs.add(n.attr)
+            elif isinstance(n, (ast.FunctionDef, ast.AsyncFunctionDef, ast.ClassDef)):
+                names.add(n.name)
+            elif isinstance(n, ast.ExceptHandler) and n.name:
+                names.add(n.name)
+            elif isinstance(n, ast.alias):
+                names.add((n.asname or n.name).split(".")[0])
+            elif isinstance(n, (ast.Global, ast.Nonlocal)):
+                names.update(n.names)
+            elif type(n).__name__ in ("MatchAs", "MatchStar") and getattr(n, "name", None):
+                names.add(n.name)
+            elif type(n).__name__ == "MatchMapping" and getattr(n, "rest", None):
+                names.add(n.rest)
+    return names, attrs
+
+
+def join_tags(a, b):
+    """least upper bound of the tags a value has on two paths"""
+    if a == b:
+        return a
+    if a == OTHER and b == OTHER:
+        return OTHER
+    scal = lambda t: isinstance(t, tuple) and t and (t == OTHER or t[0] in _INDEX_KINDS or t[0] in ("coord", "none"))
+    if scal(a) and scal(b):
+        return OTHER
+    return UNK
+
+
+def join_vals(a, b):
+    """join of two environment values (tags or python lists of tags)"""
+    if a == b:
+        return a
+    # a list that is empty on one path and a table over one window on the other (one entry appended per position of a typed
+    # iteration): the empty list is the table over an empty window
+    if a == [] and is_arr(b) and len(b[1]) == 1:
+        return b
+    if b == [] and is_arr(a) and len(a[1]) == 1:
+        return a
+    if isinstance(a, list) or isinstance(b, list):
+        if isinstance(a, list) and isinstance(b, list) and len(a) == len(b) and type(a) is type(b):
+            return type(a)(join_vals(x, y) for x, y in zip(a, b))
+        return UNK
+    return join_tags(a, b)
 
 
 class IS:
@@ -100,20 +205,83 @@ class IS:
         self.node_tags: dict = {}                            # id(expr node) -> tag at its (last) evaluation
         self.sort_req: dict[str, list] = {}                  # param -> [(sort 'axis'|'dim', node)]
         self.nobs = 0
+        # AUDIT: a parameter the caller gave no tag is taken for a scalar (OTHER) - except when its annotation says it is an array,
+        # a slice or a sequence, or it is *args / **kwargs: those are UNK
+        a_ = fn.args
+        for p_ in list(getattr(a_, "posonlyargs", [])) + list(a_.args) + list(a_.kwonlyargs):
+            if p_.arg not in self.env and p_.annotation is not None and any(k in src(p_.annotation) for k in _NONSCALAR_ANNOT):
+                self.env[p_.arg] = UNK
+        for p_ in (a_.vararg, a_.kwarg):
+            if p_ is not None and p_.arg not in self.env:
+                self.env[p_.arg] = UNK
 
     # ------------------------------------------------------------------ reporting
     def ob(self, rule, node, ok, msg, construct=None):
         self.nobs += 1
         self.chk.ob(rule, node, construct or src(node)[:110], ok, msg, file=self.rel, func=self.q)
 
+    # ------------------------------------------------------------------ what is a scalar
+    def scalar_index(self, node, t):
+        """is the subscript item `node` (tag t) an integer scalar, i.e. does it remove its axis?
+        AUDIT: typed integers are; an untyped value (OTHER) is when the expression is a name / an integer literal / arithmetic of such /
+        int(), len(): names with OTHER were never bound to anything the engine could not read (those are UNK).  Everything else
+        (UNK, untyped attributes, subscripts of untyped containers, calls) may be a slice object, a mask or an index array: not a scalar"""
+        if isinstance(t, tuple) and t and t[0] in _INDEX_KINDS:
+            return True
+        if t != OTHER:
+            return False
+        return self._plain_scalar(node)
+
+    def _plain_scalar(self, node):
+        if isinstance(node, ast.Constant):
+            return isinstance(node.value, int) and not isinstance(node.value, bool)
+        if isinstance(node, ast.Name):
+            return True
+        if isinstance(node, ast.UnaryOp) and isinstance(node.op, (ast.USub, ast.UAdd, ast.Invert)):
+            return self.scalar_index(node.operand, self.node_tags.get(id(node.operand), OTHER))
+        if isinstance(node, ast.BinOp) and not isinstance(node.op, ast.MatMult):
+            return all(self.scalar_index(x, self.node_tags.get(id(x), OTHER)) or
+                       (isinstance(x, ast.Constant) and isinstance(x.value, (int, float)) and not isinstance(x.value, bool))
+                       for x in (node.left, node.right))
+        if isinstance(node, ast.IfExp):
+            return all(self.scalar_index(x, self.node_tags.get(id(x), OTHER)) for x in (node.body, node.orelse))
+        if isinstance(node, ast.Call) and isinstance(node.func, ast.Name) and node.func.id in ("int", "len", "abs", "min", "max", "round"):
+            return True
+        return False
+
+    @staticmethod
+    def maybe_array(t):
+        """may the untyped operand `t` of an array expression have a rank of its own (so that the rank of the result is not that of
+        the typed operands)?  AUDIT: OTHER / typed scalars / untyped attributes are taken for scalars or for arrays of at most the rank
+        of the typed operands (the windows of the result, aligned from the right, are then those of the typed operands)"""
+        if is_arr(t):
+            return False
+        if isinstance(t, list):
+            return True
+        if not isinstance(t, tuple) or not t:
+            return True
+        return t == UNK or t[0] in ("grid", "layout", "iter", "obj", "sliceobj", "constants") or \
+            (isinstance(t[0], str) and t[0].startswith(("layout.", "grid.")) and t[0].split(".", 1)[1] not in ("ndims", "size", "name"))
+
+    def forget(self, names=(), attrs=()):
+        for n in names:
+            if n in self.env:
+                self.env[n] = UNK
+        for a in attrs:
+            if a in self.attrs:
+                self.attrs[a] = UNK
+
     # ------------------------------------------------------------------ expressions
     def ev(self, e):
         m = getattr(self, "ev_" + type(e).__name__, None)
         if m is None:
+            # AUDIT: an expression form without a transfer function (dict / set displays, f-strings, await, yield, ...): its parts are
+            # typed for their own obligations, its value is not modelled
             for ch in ast.iter_child_nodes(e):
                 if isinstance(ch, ast.expr):
                     self.ev(ch)
-            return OTHER
+            self.node_tags[id(e)] = UNK
+            return UNK
         t = m(e)
         self.node_tags[id(e)] = t
         return t
@@ -123,34 +291,75 @@ class IS:
             return ("lit", e.value)
         if e.value is None:
             return ("none",)
+        if e.value is Ellipsis or isinstance(e.value, (str, bytes)):
+            return UNK
         return OTHER
 
     def ev_Name(self, e):
         return self.env.get(e.id, OTHER)
 
     def ev_Tuple(self, e):
-        return [self.ev(x) for x in e.elts]
+        out = []
+        for x in e.elts:
+            if isinstance(x, ast.Starred):
+                v = self.ev(x.value)
+                if isinstance(v, list):
+                    out.extend(v)
+                    continue
+                # AUDIT: a starred element of unknown length shifts every later position: the display is not modelled
+                for y in e.elts:
+                    if y is not x and not (isinstance(y, ast.Starred) and id(y.value) in self.node_tags):
+                        self.ev(y.value if isinstance(y, ast.Starred) else y)
+                return UNK
+            out.append(self.ev(x))
+        return out
 
     ev_List = ev_Tuple
 
+    # ---- comprehensions, lambdas, walrus
+    def _comp_scope(self, generators, parts):
+        """type the parts of a comprehension in its own scope (targets bound to the element tags of what they iterate over); the
+        scope's bindings do not leak"""
+        saved = dict(self.env)
+        try:
+            for g in generators:
+                it = self.ev(g.iter)
+                self.bind_loop(g.target, self.element_tags(it))
+                for c in g.ifs:
+                    self.ev(c)
+            return [self.ev(p) for p in parts]
+        finally:
+            self.env = saved
+
+    def ev_SetComp(self, e):
+        self._comp_scope(e.generators, [e.elt])
+        return UNK
+
+    ev_GeneratorExp = ev_SetComp
+
+    def ev_DictComp(self, e):
+        self._comp_scope(e.generators, [e.key, e.value])
+        return UNK
+
+    def ev_Lambda(self, e):
+        # AUDIT: the body runs later, with the values the free names have THEN: not typed here
+        return UNK
+
+    def ev_NamedExpr(self, e):
+        v = self.ev(e.value)
+        self.assign(e.target, v, e, e.value)
+        return v
+
     def ev_ListComp(self, e):
-        if len(e.generators) != 1:
-            return OTHER
         g = e.generators[0]
+        if len(e.generators) != 1 or g.ifs or getattr(g, "is_async", 0):
+            # AUDIT: a filter or a second generator makes the result a list over another index range than the iterated one
+            self._comp_scope(e.generators, [e.elt])
+            return UNK
         it = self.ev(g.iter)
         names = {n.id for n in ast.walk(g.target) if isinstance(n, ast.Name)}
         used = {n.id for n in ast.walk(e.elt) if isinstance(n, ast.Name)}
-        w = None
-        tags = OTHER
-        if is_arr(it) and it[1]:
-            w = it[1][0]
-            tags = it[2] if it[2] is not None else OTHER
-        elif isinstance(it, tuple) and it[0] == "iter":
-            tags = it[1]
-            t0 = tags if isinstance(tags, tuple) else (tags[0] if isinstance(tags, list) and tags else OTHER)
-            if isinstance(t0, tuple) and t0[0] in ("gidx", "lidx"):
-                w = (("G" if t0[0] == "gidx" else "L"), t0[1])
-        elif isinstance(it, list):
+        if isinstance(it, list):
             saved = dict(self.env)
             out = []
             for x in it:
@@ -158,18 +367,42 @@ class IS:
                 out.append(self.ev(e.elt))
             self.env = saved
             return out
+        w = self.iter_window(it)
         saved = dict(self.env)
-        self.bind_loop(g.target, tags)
+        self.bind_loop(g.target, self.element_tags(it))
         el = self.ev(e.elt)
         self.env = saved
         if w is None:
-            return OTHER
+            return UNK
         if not (names & used):
             return arr((("U",),), None)
         return arr((w,), el if isinstance(el, tuple) and el and el[0] in ("coord", "gidx", "lidx") else None)
 
+    def iter_window(self, it):
+        """the window the POSITIONS of an iteration run over (entry k of a list built from it belongs to position k of that window)"""
+        if is_arr(it) and it[1]:
+            return it[1][0]
+        if isinstance(it, tuple) and it and it[0] == "iter":
+            if len(it) > 2:
+                return it[2]
+        return None
+
+    def element_tags(self, it):
+        """tags of the values an iteration over `it` yields (UNK when the iterable is not modelled)"""
+        if isinstance(it, tuple) and it and it[0] == "iter":
+            return it[1]
+        if is_arr(it) and it[1]:
+            if len(it[1]) == 1:
+                return it[2] if it[2] is not None else OTHER
+            return arr(it[1][1:], it[2])
+        if isinstance(it, list):
+            ts = {repr(x) for x in it}
+            return it[0] if len(ts) == 1 else UNK
+        return UNK
+
     def ev_Starred(self, e):
-        return self.ev(e.value)
+        self.ev(e.value)
+        return UNK
 
     def ev_UnaryOp(self, e):
         v = self.ev(e.operand)
@@ -177,49 +410,61 @@ class IS:
             return arr(v[1], None)
         if isinstance(v, tuple) and v[0] == "lit" and isinstance(e.op, ast.USub):
             return ("lit", -v[1])
-        return OTHER
+        return UNK if self.maybe_array(v) else OTHER
 
     def ev_BinOp(self, e):
         a, b = self.ev(e.left), self.ev(e.right)
+        return self.binop(e.op, a, b, e)
+
+    def binop(self, op, a, b, node):
+        if isinstance(op, ast.MatMult):
+            return UNK                                       # AUDIT: a contraction, not an entry-by-entry pairing
         if is_arr(a) or is_arr(b):
-            return self.broadcast([a, b], e)
+            return self.broadcast([a, b], node)
+        if self.maybe_array(a) or self.maybe_array(b):
+            return UNK
         # index arithmetic keeps the index space for +/- literals; start + lidx -> gidx
         if isinstance(a, tuple) and isinstance(b, tuple):
-            if isinstance(e.op, (ast.Add, ast.Sub)):
+            if isinstance(op, (ast.Add, ast.Sub)):
                 pair = {a[0], b[0]}
-                if a[0] in ("lidx", "gidx") and b[0] in ("lit", "other") and b[0] == "lit":
+                if a[0] in ("lidx", "gidx") and b[0] == "lit":
                     return a
-                if b[0] in ("lidx", "gidx") and a[0] == "lit" and isinstance(e.op, ast.Add):
+                if b[0] in ("lidx", "gidx") and a[0] == "lit" and isinstance(op, ast.Add):
                     return b
-                if isinstance(e.op, ast.Add) and pair == {"lidx", "start"} and a[1] == b[1]:
+                if isinstance(op, ast.Add) and pair == {"lidx", "start"} and a[1] == b[1]:
                     return ("gidx", a[1])
-                if isinstance(e.op, ast.Sub) and a[0] == "gidx" and b[0] == "start" and a[1] == b[1]:
+                if isinstance(op, ast.Sub) and a[0] == "gidx" and b[0] == "start" and a[1] == b[1]:
                     return ("lidx", a[1])
-                if isinstance(e.op, ast.Sub) and a[0] == "end" and b[0] == "start" and a[1] == b[1]:
+                if isinstance(op, ast.Sub) and a[0] == "end" and b[0] == "start" and a[1] == b[1]:
                     return ("size", L(a[1]))
-            if isinstance(e.op, ast.Mult) and {a[0], b[0]} == {"rank", "size"}:
+                if isinstance(op, ast.Add) and pair == {"start", "size"}:
+                    st_, sz_ = (a, b) if a[0] == "start" else (b, a)
+                    if sz_[1] == L(st_[1]):
+                        return ("end", st_[1])               # start + local length = end of the block
+            if isinstance(op, ast.Mult) and {a[0], b[0]} == {"rank", "size"}:
                 sz = a if a[0] == "size" else b
-                if sz[1] and sz[1][0] in ("Lmax", "L"):
+                rk = a if a[0] == "rank" else b
+                if sz[1] and sz[1][0] in ("Lmax", "L") and (rk[1] == sz[1][1]):
                     return ("wrongstart", sz[1][1])
-            if isinstance(e.op, ast.Add) and a[0] == "wrongstart":
+            if isinstance(op, ast.Add) and a[0] == "wrongstart":
                 return OTHER
         return OTHER
 
     def ev_Compare(self, e):
-        self.ev(e.left)
-        for c in e.comparators:
-            self.ev(c)
-        return OTHER
+        vs = [self.ev(e.left)] + [self.ev(c) for c in e.comparators]
+        if any(is_arr(v) for v in vs) and len(vs) == 2 and isinstance(e.ops[0], (ast.Eq, ast.NotEq, ast.Lt, ast.LtE, ast.Gt, ast.GtE)):
+            # an entry-by-entry comparison: the mask has the broadcast windows of its operands (no obligation of its own is recorded)
+            return self.broadcast(vs, e, report=False)
+        return UNK if any(is_arr(v) or self.maybe_array(v) for v in vs) else OTHER
 
     def ev_BoolOp(self, e):
-        for v in e.values:
-            self.ev(v)
-        return OTHER
+        vs = [self.ev(v) for v in e.values]
+        return UNK if any(is_arr(v) or self.maybe_array(v) for v in vs) else OTHER
 
     def ev_IfExp(self, e):
         self.ev(e.test)
         a, b = self.ev(e.body), self.ev(e.orelse)
-        return a if a == b else OTHER
+        return join_vals(a, b)
 
     def ev_Attribute(self, e):
         if isinstance(e.value, ast.Name) and e.value.id == "self":
@@ -230,13 +475,19 @@ class IS:
             if base[0] == "arr":
                 if a == "size" and len(base[1]) == 1:
                     return ("size", base[1][0])
+                if a == "size":
+                    return OTHER
+                if a == "ndim":
+                    return ("lit", len(base[1]))
                 if a == "shape":
                     return [("size", w) for w in base[1]]
                 if a in ("T",):
                     return arr(tuple(reversed(base[1])), base[2])
-                if a in ("real", "imag", "flat"):
+                if a in ("real", "imag"):
                     return base
-                return OTHER
+                if a == "flat" and len(base[1]) == 1:
+                    return base
+                return UNK                                   # AUDIT: an array attribute the engine has no transfer function for
             if base[0] == "grid" and a == "eta_grid":
                 n = len(base[1]) if base[1] is not None else 4
                 return DimList(eta_grid_tag()[:n])
@@ -246,6 +497,10 @@ class IS:
                 if a == "npts":
                     return DimList([("size", G(d)) for d in range(4)])
                 return OTHER
+            if base == UNK or base[0] in ("obj", "iter", "sliceobj") or (isinstance(base[0], str) and base[0].startswith(("layout.", "grid."))):
+                return UNK
+        if isinstance(base, list):
+            return UNK
         return OTHER
 
     def layout_axis_to_dim(self, lay, a):
@@ -277,8 +532,12 @@ class IS:
             idx = self.ev(e.slice) if not isinstance(e.slice, ast.Slice) else None
             if attr in ("starts", "ends", "shape", "max_block_shape", "nprocs", "fullShape", "ranks"):
                 if isinstance(e.slice, ast.Slice):
-                    return OTHER
+                    return UNK
                 # C-sort: axis lists are subscripted by axes
+                # AUDIT (three C-sort verdicts below): true when (1) the base is one of the per-AXIS tables of a Layout (its tag comes
+                # from the attribute name on a value tagged layout/grid by the caller's environment - the Layout API) and (2) the
+                # subscript's tag is a dimension number: it comes from dims_order[<axis>] or from a DimList position, never from a
+                # guess (untyped subscripts give no obligation)
                 if isinstance(idx, tuple) and idx[0] in ("dim", "dim_at_value"):
                     self.ob("C-sort", e, False, f"`{src(e.value)}` is ordered by layout axis but is subscripted by the "
                             f"dimension number `{src(e.slice)}` (use inv_dims_order to get the axis)")
@@ -301,7 +560,7 @@ class IS:
                         "nprocs": OTHER}[attr]
             if attr == "dims_order":
                 if isinstance(e.slice, ast.Slice):
-                    return OTHER
+                    return UNK
                 if isinstance(idx, tuple) and idx[0] == "dim":
                     # a dimension number used where an axis is expected
                     return ("dim_at_value", idx[1])
@@ -327,16 +586,18 @@ class IS:
                         return ("axis", order.index(d))
                     return ("axis_of", d)
                 return OTHER
-            return OTHER
+            if not isinstance(e.slice, ast.Slice) and attr in ("mpi_starts", "mpi_lengths"):
+                return OTHER
+            return UNK                                       # AUDIT: an attribute of Layout / Grid the engine has no table for
         # DimLists: python lists of tags
         if isinstance(base, list):
             if isinstance(e.slice, ast.Slice):
                 lo = self.ev(e.slice.lower) if e.slice.lower else ("lit", None)
                 hi = self.ev(e.slice.upper) if e.slice.upper else ("lit", None)
                 st = self.ev(e.slice.step) if e.slice.step else ("lit", None)
-                if all(isinstance(x, tuple) and x[0] == "lit" for x in (lo, hi, st)):
+                if all(isinstance(x, tuple) and x[0] == "lit" for x in (lo, hi, st)) and st[1] != 0:
                     return base[slice(lo[1], hi[1], st[1])]
-                return OTHER
+                return UNK
             idx = self.ev(e.slice)
             if isinstance(idx, tuple) and idx[0] in ("lit", "dim") and isinstance(idx[1], int) and -len(base) <= idx[1] < len(base):
                 return base[idx[1]]
@@ -348,48 +609,112 @@ class IS:
                 self.ob("C-sort", e, True, f"`{src(e.value)}` (ordered by dimension) subscripted by a dimension number", construct=src(e))
                 return retag(base[0], idx[1]) if base else OTHER
             if isinstance(idx, tuple) and idx[0] in ("axis", "axis_of") and isinstance(base, DimList):
+                # AUDIT: the base is a list ordered by DIMENSION (DimList tags are given by the caller's environment or come from
+                # grid.eta_grid / constants.npts) and the subscript is typed as a layout axis (inv_dims_order[...] or a literal axis
+                # of a known ordering)
                 self.ob("C-sort", e, False, f"`{src(e.value)}` is ordered by dimension but is subscripted by a layout axis `{src(e.slice)}`")
-            return OTHER
+            return UNK
         if is_arr(base):
             return self.index_array(base, e)
-        if isinstance(base, tuple) and base[0] == "selfattr":
-            self.ev(e.slice) if not isinstance(e.slice, ast.Slice) else None
-            return OTHER
-        if not isinstance(e.slice, ast.Slice):
-            self.ev(e.slice)
-        return OTHER
+        # AUDIT: subscript of a value that is not typed as an array / table: the parts are typed for their own obligations, the
+        # value is not modelled (it may be a row, a slice object, an element of any kind)
+        for x in ([e.slice.lower, e.slice.upper, e.slice.step] if isinstance(e.slice, ast.Slice) else [e.slice]):
+            if x is not None:
+                self.ev_index_part(x)
+        return UNK
+
+    def ev_index_part(self, x):
+        if isinstance(x, ast.Tuple):
+            for y in x.elts:
+                self.ev_index_part(y)
+        elif isinstance(x, ast.Slice):
+            for y in (x.lower, x.upper, x.step):
+                if y is not None:
+                    self.ev(y)
+        else:
+            self.ev(x)
+
+    @staticmethod
+    def _is_newaxis(it, t=None):
+        return (isinstance(it, ast.Constant) and it.value is None) or \
+            (isinstance(it, ast.Attribute) and it.attr == "newaxis" and isinstance(it.value, ast.Name) and it.value.id in ("np", "numpy")) or \
+            (isinstance(it, ast.Name) and it.id == "newaxis") or (t == ("none",))
 
     def index_array(self, base, e):
+        """AUDIT: the axis an item applies to is found by COUNTING the items before it: None / np.newaxis insert an axis, `...` stands
+        for the axes not named, an integer scalar removes its axis, a slice keeps it, ONE rank-1 index array replaces it.  Any other
+        item (a value that is not known to be a scalar: it may be a slice object, a mask, an index array; two index arrays, which numpy
+        broadcasts against each other and may move to the front) makes the placement of the LATER axes unknown: the result is UNK
+        and no obligation is recorded for those items"""
         wins = list(base[1])
         sl = e.slice
-        items = sl.elts if isinstance(sl, ast.Tuple) else [sl]
+        items = list(sl.elts) if isinstance(sl, ast.Tuple) else [sl]
+        if any(isinstance(it, ast.Starred) for it in items):
+            for it in items:
+                self.ev_index_part(it.value if isinstance(it, ast.Starred) else it)
+            return UNK
+        # `...`: expand to the full slices it stands for
+        ell = [k for k, it in enumerate(items) if isinstance(it, ast.Constant) and it.value is Ellipsis]
+        pre_tags = {}
+        if ell:
+            if len(ell) > 1:
+                return UNK
+            for it in items:
+                if not isinstance(it, (ast.Slice,)) and not (isinstance(it, ast.Constant) and it.value is Ellipsis):
+                    pre_tags[id(it)] = self.ev(it)
+            consuming = 0
+            for it in items:
+                if isinstance(it, ast.Constant) and it.value is Ellipsis:
+                    continue
+                if isinstance(it, ast.Slice):
+                    consuming += 1
+                elif self._is_newaxis(it, pre_tags.get(id(it))):
+                    continue
+                elif self.scalar_index(it, pre_tags[id(it)]) or (is_arr(pre_tags[id(it)]) and len(pre_tags[id(it)][1]) == 1):
+                    consuming += 1
+                else:
+                    return UNK
+            fill = len(wins) - consuming
+            if fill < 0:
+                return UNK
+            full = [ast.copy_location(ast.Slice(lower=None, upper=None, step=None), items[ell[0]]) for _ in range(fill)]
+            items = items[:ell[0]] + full + items[ell[0] + 1:]
         out = []
         k = 0
+        fancy = 0
         for it in items:
-            if isinstance(it, ast.Constant) and it.value is None:
-                out.append(UNIT)
-                continue
-            if k >= len(wins):
-                return OTHER
-            w = wins[k]
             if isinstance(it, ast.Slice):
-                if it.lower is None and it.upper is None:
+                if k >= len(wins):
+                    return UNK
+                w = wins[k]
+                if it.lower is None and it.upper is None and it.step is None:
                     out.append(w)
                 else:
                     out.append(self.slice_window(w, it, e))
                 k += 1
                 continue
-            t = self.ev(it)
+            t = pre_tags[id(it)] if id(it) in pre_tags else self.ev(it)
+            if self._is_newaxis(it, t):
+                out.append(UNIT)
+                continue
+            if k >= len(wins):
+                return UNK                                   # more indices than typed axes: the rank is not what the engine believes
+            w = wins[k]
             if is_arr(t):
                 # fancy indexing by an index array
+                fancy += 1
+                if len(t[1]) != 1 or fancy > 1:
+                    return UNK
                 el = t[2]
                 if el is not None and el[0] in ("gidx", "lidx"):
                     self.check_index(w, el, e, it)
-                    out.append(L(el[1]) if t[1] and t[1][0][0] == "L" else t[1][0] if t[1] else w)
+                    out.append(L(el[1]) if t[1] and t[1][0] is not None and t[1][0][0] == "L" else t[1][0] if t[1] else w)
                 else:
                     out.append(OTHER)
                 k += 1
                 continue
+            if not self.scalar_index(it, t):
+                return UNK
             self.check_index(w, t, e, it)
             k += 1
         out.extend(wins[k:])
@@ -397,36 +722,79 @@ class IS:
             return base[2] if base[2] is not None else OTHER
         return arr(out, base[2])
 
+    @staticmethod
+    def _lit_or_none(x):
+        return x is None or (isinstance(x, tuple) and x[0] == "lit")
+
     def slice_window(self, w, it: ast.Slice, e):
         lo = self.ev(it.lower) if it.lower is not None else None
         hi = self.ev(it.upper) if it.upper is not None else None
+        st = self.ev(it.step) if it.step is not None else None
+        if st is not None and st != ("lit", 1):
+            # AUDIT: a stride / a reversal selects other rows than the window's: the axis is not typed
+            return STENCIL
         if w is not None and w[0] == "G":
             d = w[1]
             if lo is not None and hi is not None and isinstance(lo, tuple) and isinstance(hi, tuple) \
                     and lo[0] == "start" and hi[0] == "end":
-                ok = lo[1] == hi[1] == d or d is None
+                # AUDIT: VIOLATED when the table is typed Global(d) and the bounds are typed start/end of ANOTHER dimension (all three
+                # dimensions known); an unknown dimension on either side is not a mismatch
+                known = lo[1] is not None and hi[1] is not None
+                ok = lo[1] == hi[1] and (d is None or lo[1] == d)
+                if not ok and not known:
+                    ok = None
                 self.ob("C-window", e, ok, f"{wname(w)} table cut to the local block [start:end) of "
                         f"{DIMNAMES.get(lo[1], lo[1])}/{DIMNAMES.get(hi[1], hi[1])}" +
-                        ("" if ok else " - start/end belong to a different dimension than the table"))
-                return L(d if d is not None else lo[1]) if ok else OTHER
+                        ("" if ok else " - start/end belong to a different dimension than the table" if ok is False else
+                         " - the dimension of the bounds is not established"))
+                return L(d if d is not None else lo[1]) if ok else None
             if lo is None and hi is not None and isinstance(hi, tuple) and hi[0] == "size" and hi[1] and hi[1][0] in ("L", "Lmax"):
-                self.ob("C-window", e, False, f"{wname(w)} table cut to its first n_local entries: these are the entries of the "
+                # AUDIT: the first n_local entries are the block of the process at the origin; true defect when the dimension of the
+                # table is distributed in the ambient layout (a Ctx without dist_dims stands for EVERY layout: the routine must be
+                # right for the ones that distribute d).  When d is not distributed the prefix is the whole table = the local block
+                hd = hi[1][1]
+                same = d is None or hd is None or d == hd
+                if same and hi[1][0] == "L" and not self.ctx.distributed(d if d is not None else hd):
+                    self.ob("C-window", e, True, f"{wname(w)} table cut to its first n_local entries: {DIMNAMES.get(d, d)} is not "
+                            "distributed in this layout (the block is the whole table)")
+                    return L(d if d is not None else hd)
+                self.ob("C-window", e, False if same else None, f"{wname(w)} table cut to its first n_local entries: these are the entries of the "
                         "first block, not of this process's block (must be [start:end))")
                 return ("P", d)
-            if (lo is not None and isinstance(lo, tuple) and lo[0] in ("start", "end")) or \
-                    (hi is not None and isinstance(hi, tuple) and hi[0] in ("start", "end")):
-                self.ob("C-window", e, False, f"{wname(w)} table cut by a mixed/partial local range `{src(it)}`")
-                return OTHER
-        if w is not None and w[0] in ("G", "Gm") and all(x is None or (isinstance(x, tuple) and x[0] == "lit") for x in (lo, hi)):
-            k = w[2] if w[0] == "Gm" else 0
-            return ("Gm", w[1], k + 1)
+            lo_se = lo is not None and isinstance(lo, tuple) and lo[0] in ("start", "end")
+            hi_se = hi is not None and isinstance(hi, tuple) and hi[0] in ("start", "end")
+            if lo_se or hi_se:
+                # AUDIT: one bound is the block's start / end.  A defect when both bounds are typed and are not [start_d:end_d) (two
+                # starts, end before start, bounds of two dimensions, a length used as a position).  When the other bound is absent or a
+                # literal the result is the tail / head of the global table from the block on - not the block, but `X[start:][:n]` or
+                # `X[start:][i]` are right: not decided here; when it is a value the engine does not type (e.g. start + n) the range
+                # may well be the block: UNDECIDED
+                other = hi if lo_se else lo
+                known_other = (lo_se and hi_se) or (isinstance(other, tuple) and other[0] in ("size", "lidx", "gidx"))
+                self.ob("C-window", e, False if known_other else None, f"{wname(w)} table cut by a mixed/partial local range `{src(it)}`" +
+                        ("" if known_other else " - one bound is not typed: whether the range is the local block is not established"))
+                return None
+        if w is not None and w[0] in ("G", "Gm") and self._lit_or_none(lo) and self._lit_or_none(hi):
+            # a literal cut of a global table: `x[1:]`, `x[:-1]`, `x[1:-1]` - the number of entries removed at the two ends
+            a_ = 0 if lo is None else lo[1]
+            b_ = 0 if hi is None else -hi[1]
+            if a_ is not None and b_ is not None and a_ >= 0 and b_ >= 0 and (hi is None or hi[1] < 0):
+                k = w[2] if w[0] == "Gm" else 0
+                return ("Gm", w[1], k + a_ + b_)
+            return STENCIL
         if w is not None and w[0] == "G" and lo is not None and isinstance(lo, tuple) and lo[0] == "wrongstart":
-            self.ob("C-window", e, False, f"{wname(w)} table cut from `rank x max block length`: that is not the global start of "
+            # AUDIT: lo is rank(d') x (max) block length of the SAME d' (checked where the product is typed); a defect for uneven blocks
+            same = w[1] is None or lo[1] is None or w[1] == lo[1]
+            self.ob("C-window", e, False if same else None, f"{wname(w)} table cut from `rank x max block length`: that is not the global start of "
                     "this process's block when the blocks are uneven (use starts/ends or getGlobalIdxVals)")
             return ("P", w[1])
         return w if (lo is None and hi is None) else STENCIL
 
     def check_index(self, w, t, e, it):
+        """AUDIT (all C-window verdicts here): true when the window `w` of the axis and the index tag `t` are.  Windows come from
+        the constructions the engine models (cuts [start:end), allocations from typed sizes, Grid accessors, broadcasting of typed
+        operands); index tags from loops over typed ranges / getCoords / getGlobalIdxVals and from index arithmetic.  `distributed(d)`
+        is the caller's statement about the ambient layout (dist_dims=None: for every layout, i.e. d may be distributed)"""
         if w is None or not isinstance(t, tuple):
             return
         if w[0] in ("G", "L", "P") and t[0] in ("lidx", "gidx"):
@@ -439,11 +807,15 @@ class IS:
             dd = d if d is not None else td
             if w[0] == "G" and t[0] == "lidx":
                 ok = not self.ctx.distributed(dd)
+                if not ok and dd is None:
+                    ok = None                                # dimension of neither side known
                 self.ob("C-window", e, ok, f"axis {wname(w)} of `{src(e.value)}` is subscripted by the local index `{src(it)}`" +
                         (f" ({DIMNAMES.get(dd, dd)} is not distributed in this layout)" if ok else
                          f" while {DIMNAMES.get(dd, dd)} is distributed in this layout: rows of another process's block are used"))
             elif w[0] == "L" and t[0] == "gidx":
                 ok = not self.ctx.distributed(dd)
+                if not ok and dd is None:
+                    ok = None
                 self.ob("C-window", e, ok, f"axis {wname(w)} of `{src(e.value)}` is subscripted by the global index `{src(it)}`" +
                         ("" if ok else f" while {DIMNAMES.get(dd, dd)} is distributed"))
             elif w[0] == "P":
@@ -454,32 +826,304 @@ class IS:
             self.param_req.setdefault(t[1], []).append((("gidx" if w[0] == "G" else "lidx", w[1]), e,
                                                         f"subscripts axis {wname(w)} of `{src(e.value)}`"))
 
-    def broadcast(self, vals, node):
+    def broadcast(self, vals, node, report=True):
+        """AUDIT: callers pass the operands of an ENTRY-BY-ENTRY numpy operation (arithmetic operators, the ufuncs of the tables
+        below, stores `X[...] = v`).  Entries are paired axis by axis from the right; unit axes pair with anything.  VIOLATED: two
+        typed windows on the same axis that cover different index ranges - different known dimensions, or Global(d) with Local(d) /
+        a prefix for a d that is (may be) distributed.  Axes of unknown dimension are UNDECIDED.  An operand that is not typed and may
+        be an array of higher rank makes the RESULT unmodelled (the verdicts between the typed operands stand: alignment is from the
+        right)"""
         arrs = [v for v in vals if is_arr(v)]
+        if not arrs:
+            return UNK
         n = max(len(a[1]) for a in arrs)
         out = []
         for k in range(1, n + 1):
             ws = [a[1][-k] for a in arrs if len(a[1]) >= k]
             ws2 = [w for w in ws if w is not None and w != UNIT]
-            w = ws2[0] if ws2 else UNIT
+            w = ws2[0] if ws2 else (UNIT if all(x is not None for x in ws) else None)
             for w2 in ws2[1:]:
                 if w2 != w and w[0] in ("G", "L", "P") and w2[0] in ("G", "L", "P"):
                     same_dim = w[1] == w2[1] or w[1] is None or w2[1] is None
                     d = w[1] if w[1] is not None else w2[1]
                     if not same_dim or ({w[0], w2[0]} != {"G", "L"} or self.ctx.distributed(d)):
-                        self.ob("C-window", node, False, f"element-wise combination of axes {wname(w)} and {wname(w2)}: the "
-                                "operands cover different index ranges (lengths may agree, rows do not correspond)")
+                        ok = False
+                        if same_dim and d is None:
+                            ok = None
+                        if report:
+                            self.ob("C-window", node, ok, f"element-wise combination of axes {wname(w)} and {wname(w2)}: the "
+                                    "operands cover different index ranges (lengths may agree, rows do not correspond)" +
+                                    ("" if ok is False else " - a dimension is not established"))
             out.append(w)
+        if any(self.maybe_array(v) for v in vals if not is_arr(v)):
+            return UNK
         return arr(tuple(reversed(out)), None)
+
+    # ---- numpy tables.  AUDIT: a function is entry-by-entry / shape-preserving / a reduction only when it is LISTED; everything
+    # else is not modelled (UNK, no obligation)
+    NP_UNARY = {"real", "imag", "sqrt", "exp", "floor", "ceil", "abs", "absolute", "fabs", "cos", "sin", "tan", "tanh", "cosh", "sinh",
+                "arccos", "arcsin", "arctan", "log", "log10", "log2", "log1p", "expm1", "conj", "conjugate", "negative", "positive",
+                "square", "sign", "rint", "trunc", "isnan", "isfinite", "isinf", "logical_not", "invert", "reciprocal", "angle",
+                "float64", "int64", "complex128", "nan_to_num",
+                "full_like", "empty_like", "zeros_like", "ones_like", "copy", "ascontiguousarray", "asfortranarray", "asarray",
+                "asanyarray", "array", "atleast_1d"}
+    NP_KEEP_ELEM = {"real", "atleast_1d", "array", "asarray", "asanyarray", "copy", "ascontiguousarray", "asfortranarray"}
+    NP_NARY = {"mod", "remainder", "fmod", "add", "subtract", "multiply", "divide", "true_divide", "floor_divide", "power", "maximum",
+               "minimum", "fmax", "fmin", "arctan2", "hypot", "equal", "not_equal", "less", "greater", "less_equal", "greater_equal",
+               "logical_and", "logical_or", "logical_xor", "isclose", "copysign", "clip"}
+    NP_REDUCE = {"prod", "sum", "amin", "amax", "min", "max", "mean", "std", "var", "any", "all", "nansum", "nanmin", "nanmax", "nanprod"}
+    NP_SAFE_KW = {"dtype", "casting", "order", "subok", "copy", "equal_nan", "rtol", "atol", "like"}
+
+    def reduce_windows(self, a, ax, keep):
+        """windows of a reduction of `a` over axis tag `ax` (None: all axes) with keepdims `keep` (True / False / None = not a literal)"""
+        ws = list(a[1])
+        if keep is None:
+            return UNK
+        if ax is None or ax == ("none",):
+            return arr([UNIT] * len(ws), None) if keep else OTHER
+        axes = [ax] if isinstance(ax, tuple) else ax if isinstance(ax, list) else None
+        if axes is None or not all(isinstance(x, tuple) and x[0] == "lit" and -len(ws) <= x[1] < len(ws) for x in axes):
+            return UNK                                       # AUDIT: which axis disappears is not known
+        idx = {x[1] % len(ws) for x in axes}
+        out = [(UNIT if k in idx else w) for k, w in enumerate(ws)] if keep else [w for k, w in enumerate(ws) if k not in idx]
+        if not out:
+            return OTHER
+        return arr(out, None)
+
+    @staticmethod
+    def _lit_bool(node):
+        return node.value if isinstance(node, ast.Constant) and isinstance(node.value, bool) else None
+
+    def np_call(self, e, name, args, kw):
+        kwn = {k.arg: k.value for k in e.keywords}
+        arrs = [a for a in args if is_arr(a)]
+        # ---- allocation from a shape
+        if name in ("empty", "zeros", "ones", "ndarray", "full") and args:
+            shp = args[0]
+            if set(kw) - {"dtype", "order", "fill_value", "like"}:
+                return UNK                                   # buffer= / strides= / shape= ...: another view
+            if isinstance(shp, list):
+                if any(isinstance(s, list) or is_arr(s) or self.maybe_array(s) for s in shp):
+                    return UNK
+                return arr(tuple(s[1] if isinstance(s, tuple) and s[0] == "size" and s[1] is not None else
+                                 (UNIT if s == ("lit", 1) else STENCIL) for s in shp), None)
+            if isinstance(shp, tuple) and shp[0] == "size" and shp[1] is not None:
+                return arr((shp[1],), None)
+            if isinstance(shp, tuple) and shp[0] == "lit":
+                return arr((UNIT if shp[1] == 1 else STENCIL,), None)
+            # AUDIT: a shape that is not a display of typed sizes may be a tuple of any length: the rank is not known
+            return UNK
+        if name == "array" and e.args and isinstance(e.args[0], (ast.List, ast.Tuple)) and not (set(kw) - {"dtype", "order", "copy"}):
+            elts = e.args[0].elts
+            stars = [x for x in elts if isinstance(x, ast.Starred)]
+            if len(stars) == 1:
+                mid = self.node_tags.get(id(stars[0].value))
+                plain = all(not (is_arr(self.node_tags.get(id(x))) or isinstance(self.node_tags.get(id(x)), list) or
+                                 self.node_tags.get(id(x)) == UNK) for x in elts if x is not stars[0])
+                if is_arr(mid) and len(mid[1]) == 1 and mid[1][0] and mid[1][0][0] == "Gm" and len(elts) - 1 == mid[1][0][2] and plain:
+                    # a global table with k entries cut off at its ends and k scalar entries put back: as long as the global table
+                    return arr((G(mid[1][0][1]),), None)
+                if is_arr(mid) and len(mid[1]) == 1 and plain:
+                    return arr((STENCIL,), None)
+                return UNK
+            if stars:
+                return UNK
+            ts = args[0] if isinstance(args[0], list) else None
+            if ts is None or any(is_arr(t) or isinstance(t, list) or self.maybe_array(t) for t in ts):
+                return UNK                                   # nested displays / array elements: rank not known
+            return arr((STENCIL,), None)
+        safe = not (set(kw) - self.NP_SAFE_KW - {"out", "where"}) and "shape" not in kw
+        if name in self.NP_UNARY:
+            if not safe or (name in ("array", "asarray", "asanyarray") and "ndmin" in kw):
+                return UNK
+            extra = [kw[k] for k in ("out", "where") if k in kw]
+            if args and is_arr(args[0]):
+                more = [a for a in args[1:] if is_arr(a)] + [x for x in extra if is_arr(x)]
+                if any(self.maybe_array(a) for a in args[1:] + extra):
+                    return UNK
+                if name in ("full_like", "empty_like", "zeros_like", "ones_like"):
+                    return arr(args[0][1], None)             # the fill value is not paired with the prototype
+                return self.broadcast([args[0]] + more, e) if more else arr(args[0][1], args[0][2] if name in self.NP_KEEP_ELEM else None)
+            if args and not self.maybe_array(args[0]) and not isinstance(args[0], list):
+                return OTHER                                 # function of a scalar
+            return UNK
+        if name in self.NP_NARY or (name == "where" and len(e.args) == 3):
+            if not safe:
+                return UNK
+            ops = list(args) + [kw[k] for k in ("out", "where") if k in kw]
+            if any(isinstance(a, list) for a in ops):
+                return UNK
+            if not arrs and not any(is_arr(x) for x in ops):
+                return UNK if any(self.maybe_array(a) for a in ops) else OTHER
+            return self.broadcast(ops, e)
+        if name in self.NP_REDUCE and args and is_arr(args[0]):
+            if set(kw) - {"axis", "keepdims", "dtype", "initial"} or len(e.args) > 2:
+                return UNK                                   # out= / where= / positional dtype ...
+            ax = kw.get("axis") if "axis" in kw else (args[1] if len(e.args) > 1 else None)
+            keep = False if "keepdims" not in kwn else self._lit_bool(kwn["keepdims"])
+            return self.reduce_windows(args[0], ax, keep)
+        if name in ("arange", "linspace", "eye", "fftfreq"):
+            if name == "fftfreq" and args and isinstance(args[0], tuple) and args[0][0] == "size" and args[0][1] is not None:
+                return arr((args[0][1],), None)
+            if name == "fftfreq":
+                return arr((("G", None),), None)
+            if name == "arange" and len(e.args) == 1 and isinstance(args[0], tuple) and args[0][0] == "size" and args[0][1] is not None \
+                    and not (set(kw) - {"dtype"}):
+                return arr((args[0][1],), None)
+            if any(is_arr(a) or isinstance(a, list) for a in args):
+                return UNK
+            if name == "linspace" and (set(kw) - {"num", "endpoint", "dtype"}):
+                return UNK                                   # retstep=True returns a pair, axis= ...
+            return arr((STENCIL,) * (2 if name == "eye" else 1), None)
+        if name == "atleast_2d" and len(e.args) == 1 and not kw and is_arr(args[0]):
+            return arr((UNIT,) + tuple(args[0][1]), args[0][2]) if len(args[0][1]) == 1 else args[0]
+        # ---- axis placement
+        if name == "expand_dims" and len(args) + len(kw) == 2 and arrs and is_arr(args[0]) and not (set(kw) - {"axis"}):
+            ax = kw.get("axis") if "axis" in kw else args[1]
+            axes = [ax] if isinstance(ax, tuple) else ax if isinstance(ax, list) else None
+            n = len(args[0][1]) + (len(axes) if axes else 0)
+            if axes and all(isinstance(x, tuple) and x[0] == "lit" and -n <= x[1] < n for x in axes):
+                pos = sorted({x[1] % n for x in axes})
+                if len(pos) == len(axes):
+                    ws = list(args[0][1])
+                    out = []
+                    for k in range(n):
+                        out.append(UNIT if k in pos else ws.pop(0))
+                    return arr(out, args[0][2])
+            return UNK
+        if name == "transpose" and args and is_arr(args[0]) and not (set(kw) - {"axes"}):
+            perm = kw.get("axes") if "axes" in kw else (args[1] if len(args) > 1 else None)
+            return self.permute(args[0], perm)
+        if name == "swapaxes" and len(args) == 3 and not kw and is_arr(args[0]):
+            n = len(args[0][1])
+            if all(isinstance(x, tuple) and x[0] == "lit" and -n <= x[1] < n for x in args[1:]):
+                ws = list(args[0][1])
+                i, j = args[1][1] % n, args[2][1] % n
+                ws[i], ws[j] = ws[j], ws[i]
+                return arr(ws, args[0][2])
+            return UNK
+        if name == "moveaxis" and len(args) == 3 and not kw and is_arr(args[0]):
+            n = len(args[0][1])
+            if all(isinstance(x, tuple) and x[0] == "lit" and -n <= x[1] < n for x in args[1:]):
+                ws = list(args[0][1])
+                w_ = ws.pop(args[1][1] % n)
+                ws.insert(args[2][1] % n, w_)
+                return arr(ws, args[0][2])
+            return UNK
+        if name == "outer" and len(args) == 2 and not kw and all(is_arr(a) and len(a[1]) == 1 for a in args):
+            return arr((args[0][1][0], args[1][1][0]), None)
+        if name in ("ravel", "flatten") and len(args) == 1 and is_arr(args[0]) and len(args[0][1]) == 1:
+            return args[0]
+        # AUDIT: every other numpy function (dot, einsum, meshgrid, concatenate, stack, take, diff, cumsum, reshape, squeeze, roll,
+        # tile, repeat, searchsorted, ...) is not modelled: no pairing of its operands is claimed
+        return UNK
+
+    def permute(self, a, perm):
+        if perm is None or perm == ("none",):
+            return arr(tuple(reversed(a[1])), a[2])
+        n = len(a[1])
+        if isinstance(perm, list) and len(perm) == n and all(isinstance(x, tuple) and x[0] == "lit" and -n <= x[1] < n for x in perm) \
+                and len({x[1] % n for x in perm}) == n:
+            return arr([a[1][x[1] % n] for x in perm], a[2])
+        return UNK
+
+    def array_method(self, recv, e, name, args, kw):
+        kwn = {k.arg: k.value for k in e.keywords}
+        if name in ("copy", "conj", "astype"):
+            return recv
+        if name in ("conjugate", "round", "clip"):
+            return arr(recv[1], None) if not any(is_arr(a) or self.maybe_array(a) for a in list(args) + list(kw.values())) else UNK
+        if name in ("flatten", "ravel"):
+            return recv if len(recv[1]) == 1 else UNK        # AUDIT: flattening a table of rank > 1 merges its axes
+        if name in self.NP_REDUCE:
+            if set(kw) - {"axis", "keepdims", "dtype", "initial"} or len(e.args) > 1:
+                return UNK
+            ax = kw.get("axis") if "axis" in kw else (args[0] if e.args else None)
+            keep = False if "keepdims" not in kwn else self._lit_bool(kwn["keepdims"])
+            return self.reduce_windows(recv, ax, keep)
+        if name == "transpose" and not kw:
+            if not args:
+                return self.permute(recv, None)
+            return self.permute(recv, args[0] if len(args) == 1 and isinstance(args[0], list) else list(args))
+        if name == "swapaxes" and len(args) == 2 and not kw:
+            n = len(recv[1])
+            if all(isinstance(x, tuple) and x[0] == "lit" and -n <= x[1] < n for x in args):
+                ws = list(recv[1])
+                i, j = args[0][1] % n, args[1][1] % n
+                ws[i], ws[j] = ws[j], ws[i]
+                return arr(ws, recv[2])
+            return UNK
+        if name in ("fill", "sort", "itemset", "setflags", "tofile", "dump"):
+            return ("none",)
+        if name == "item":
+            return OTHER
+        return UNK                                           # AUDIT: reshape, squeeze, take, dot, nonzero, ...: not modelled
+
+    def own_class_methods(self):
+        cls = self.q.split(".")[0] if "." in self.q else None
+        if not cls:
+            return {}
+        cache = self.__dict__.setdefault("_own_methods", None)
+        if cache is None:
+            try:
+                cache = dict(self.chk.mod(self.rel).methods(cls))
+            except Exception:                                # noqa: BLE001 - the class is not in the module (a copy under analysis)
+                cache = {}
+            cache.update(self.methods)
+            self._own_methods = cache
+        return cache
+
+    def forget_effects_of(self, mname, seen=None):
+        """a same-class method the engine does not step into (summarised / too deep) may store instance attributes: forget those"""
+        seen = seen if seen is not None else set()
+        if mname in seen:
+            return
+        seen.add(mname)
+        m = self.own_class_methods().get(mname)
+        if m is None:
+            return
+        _, attrs = _stored_names([m])
+        for n in ast.walk(m):
+            if isinstance(n, ast.Call) and isinstance(n.func, ast.Attribute) and isinstance(n.func.value, ast.Name) and n.func.value.id == "self":
+                self.forget_effects_of(n.func.attr, seen)
+            if isinstance(n, ast.Call) and isinstance(n.func, ast.Attribute) and n.func.attr in _LIST_MUTATORS and \
+                    isinstance(n.func.value, ast.Attribute) and isinstance(n.func.value.value, ast.Name) and n.func.value.value.id == "self":
+                attrs.add(n.func.value.attr)
+        self.forget(attrs=attrs)
 
     def ev_Call(self, e):
         f = e.func
         name = f.attr if isinstance(f, ast.Attribute) else f.id if isinstance(f, ast.Name) else ""
         recv = self.ev(f.value) if isinstance(f, ast.Attribute) and not (isinstance(f.value, ast.Name) and f.value.id in ("np", "numpy", "math")) else None
-        args = [self.ev(a) for a in e.args]
+        if not isinstance(f, (ast.Attribute, ast.Name)):
+            self.ev(f)
+        star = any(isinstance(a, ast.Starred) for a in e.args) or any(k.arg is None for k in e.keywords)
+        args = [self.ev(a.value if isinstance(a, ast.Starred) else a) for a in e.args]
         kw = {k.arg: self.ev(k.value) for k in e.keywords}
         isnp = isinstance(f, ast.Attribute) and isinstance(f.value, ast.Name) and f.value.id in ("np", "numpy")
-        # ---- grid accessors
+        self_call = isinstance(f, ast.Attribute) and isinstance(f.value, ast.Name) and f.value.id == "self"
+        # in-place mutation of a python list the engine has a tag for: the tag no longer describes it
+        if isinstance(f, ast.Attribute) and name in _LIST_MUTATORS and isinstance(recv, list):
+            if isinstance(f.value, ast.Name):
+                self.env[f.value.id] = UNK
+            elif isinstance(f.value, ast.Attribute) and isinstance(f.value.value, ast.Name) and f.value.value.id == "self":
+                self.attrs[f.value.attr] = UNK
+            return UNK
+        if star:
+            # AUDIT: star-expanded arguments are not bound to parameters: the call is not modelled.  For a summarised per-slice
+            # routine that is an obligation the engine cannot decide (not a silent pass)
+            if self_call and name in self.summaries:
+                self.ob("C-slice-param", e, None, f"`{name}` is called with star-expanded arguments: which value reaches its index "
+                        "parameters is not established", construct=src(e)[:90])
+            if isinstance(recv, tuple) and recv[0] == "obj" and (recv[1], name) in self.obj_summaries:
+                self.ob("C-slice-param", e, None, f"`{name}` is called with star-expanded arguments: which value reaches its index "
+                        "parameters is not established", construct=src(e)[:90])
+            if self_call:
+                self.forget_effects_of(name)
+            return UNK
+        # ---- grid accessors.  AUDIT: the meaning of Grid.getCoords / getCoordVals / getGlobalIdxVals / get2DSlice / get1DSlice /
+        # getAllData / getLayout is the Grid API (the receiver is tagged `grid` by the caller's environment); C02 checks the
+        # methods themselves.  Arguments passed by keyword are not bound: not modelled
         if isinstance(recv, tuple) and recv[0] == "grid":
             order, ndist = recv[1], recv[2]
 
@@ -487,154 +1131,132 @@ class IS:
                 if isinstance(a, tuple) and a[0] == "lit" and order is not None and -len(order) <= a[1] < len(order):
                     return order[a[1]]
                 return None
-            if name == "getCoords" and args:
+            if kw:
+                return UNK
+            if name == "getCoords" and len(args) == 1:
                 d = dim_of(args[0])
-                return ("iter", [("lidx", d), ("coord", d)])
-            if name == "getCoordVals" and args:
+                return ("iter", [("lidx", d), ("coord", d)], L(d))
+            if name == "getCoordVals" and len(args) == 1:
                 d = dim_of(args[0])
                 return arr((L(d),), ("coord", d))
-            if name == "getGlobalIdxVals" and args:
+            if name == "getGlobalIdxVals" and len(args) == 1:
                 d = dim_of(args[0])
                 return arr((L(d),), ("gidx", d))
             if name in ("get2DSlice", "get1DSlice"):
-                nd = len(order) if order is not None else None
                 keep = 2 if name == "get2DSlice" else 1
+                if order is None or len(args) != len(order) - keep:
+                    # AUDIT: selector k belongs to axis k only when all leading axes are selected
+                    return UNK
+                # AUDIT (selector verdict): every leading axis has its selector (checked above), so selector k addresses axis k of the
+                # ambient ordering `order` (the caller's statement about the layout); VIOLATED when the selector is typed as an index
+                # of another dimension, or as a global index of a distributed one; untyped selectors give no obligation
                 for k, a in enumerate(args):
-                    want = order[k] if order is not None and k < len(order) else None
+                    want = order[k]
                     if isinstance(a, tuple) and a[0] in ("lidx", "gidx") and want is not None:
                         ok = a == ("lidx", want) or (a == ("gidx", want) and not self.ctx.distributed(want))
+                        if not ok and a[1] is None:
+                            ok = None
                         self.ob("C-window", e, ok, f"slice selector {k} of `{src(e)[:50]}` must be the local index along "
                                 f"{DIMNAMES.get(want, want)}, got {tname(a)}", construct=src(e)[:80] + f" [selector {k}]")
                     elif isinstance(a, tuple) and a[0] == "param":
                         self.param_req.setdefault(a[1], []).append((("lidx", want), e, f"selects the slice in `{src(e)[:40]}`"))
-                if order is not None:
-                    return arr(tuple(G(d) for d in order[-keep:]), None)
-                return OTHER
-            if name == "getAllData":
+                return arr(tuple(G(d) for d in order[-keep:]), None)
+            if name == "getAllData" and not args:
                 if order is not None:
                     nd_ = ndist if ndist is not None else 2
                     return arr(tuple(L(d) if k < nd_ else G(d) for k, d in enumerate(order)), None)
-                return OTHER
-            if name == "getLayout":
+                return UNK
+            if name == "getLayout" and len(e.args) == 1:
                 # getLayout(grid.currentLayout) -> ambient layout; getLayout('name') -> named
-                if e.args and isinstance(e.args[0], ast.Constant) and isinstance(e.args[0].value, str):
-                    o = LAYOUT_ORDERS.get(e.args[0].value)
+                a0 = e.args[0]
+                if isinstance(a0, ast.Constant) and isinstance(a0.value, str):
+                    o = LAYOUT_ORDERS.get(a0.value)
                     return ("layout", o, None)
-                return ("layout", order, ndist)
-            if name in ("getSpline", "get2DSpline", "get1DSpline"):
-                return OTHER
-            return OTHER
+                if isinstance(a0, ast.Attribute) and a0.attr == "currentLayout" and src(a0.value) == src(f.value):
+                    return ("layout", order, ndist)
+                return ("layout", None, None)                # AUDIT: a layout named by a value: its ordering is not known
+            return UNK
         if isinstance(recv, tuple) and recv[0] == "layout" and name in ("mpi_starts", "mpi_lengths"):
             return OTHER
         # ---- builtins
-        if name == "enumerate" and args:
+        if isinstance(f, ast.Name) and name == "enumerate" and args:
             a = args[0]
+            shifted = len(e.args) > 1 or bool(kw)            # enumerate(x, start): the counter is not the position
             if is_arr(a) and a[1]:
                 w = a[1][0]
                 it = ("gidx", w[1]) if w and w[0] == "G" else ("lidx", w[1]) if w and w[0] == "L" else OTHER
                 el = a[2] if len(a[1]) == 1 and a[2] is not None else (arr(a[1][1:], a[2]) if len(a[1]) > 1 else OTHER)
-                return ("iter", [it, el])
+                return ("iter", [OTHER if shifted else it, el], w)
             if isinstance(a, tuple) and a[0] == "iter":
-                return ("iter", [OTHER, a[1]])
+                first = a[1][0] if isinstance(a[1], list) and a[1] else a[1]
+                cnt = OTHER
+                w = a[2] if len(a) > 2 else None
+                if not shifted and w is not None and w[0] in ("G", "L"):
+                    cnt = ("gidx" if w[0] == "G" else "lidx", w[1])
+                return ("iter", [cnt, a[1]], w)
             if isinstance(a, list):
-                return ("iter", [OTHER, OTHER])
-            return ("iter", [OTHER, OTHER])
-        if name == "range" and args:
+                return ("iter", [OTHER, self.element_tags(a)])
+            return ("iter", [OTHER, UNK])
+        if isinstance(f, ast.Name) and name == "range" and args and not kw:
             hi = args[-1] if len(args) <= 2 else args[1]
+            lo = args[0] if len(args) >= 2 else None
+            if isinstance(hi, tuple) and hi[0] == "size" and hi[1] and hi[1][0] in ("G", "L") and len(args) == 1:
+                return ("iter", ("gidx" if hi[1][0] == "G" else "lidx", hi[1][1]), hi[1])
             if isinstance(hi, tuple) and hi[0] == "size" and hi[1] and hi[1][0] in ("G", "L"):
                 return ("iter", ("gidx" if hi[1][0] == "G" else "lidx", hi[1][1]))
+            if len(args) == 2 and isinstance(lo, tuple) and isinstance(hi, tuple) and lo[0] == "start" and hi[0] == "end" and lo[1] == hi[1]:
+                return ("iter", ("gidx", lo[1]), L(lo[1]))   # the global indices of the block, in order
             return ("iter", OTHER)
-        if name == "zip":
+        if isinstance(f, ast.Name) and name == "zip":
             els = []
+            ws = []
             for a in args:
                 if isinstance(a, tuple) and a[0] == "iter":
                     els.append(a[1])
-                elif is_arr(a):
-                    els.append(a[2] if a[2] is not None else OTHER)
+                    ws.append(a[2] if len(a) > 2 else None)
+                elif is_arr(a) and a[1]:
+                    els.append(self.element_tags(a))
+                    ws.append(a[1][0])
                 else:
-                    els.append(OTHER)
-            return ("iter", els)
-        if name == "len" and args:
+                    els.append(UNK if (self.maybe_array(a) or isinstance(a, list)) else OTHER)
+                    ws.append(None)
+            w = ws[0] if ws and all(x is not None and x == ws[0] for x in ws) else None
+            return ("iter", els, w) if w is not None else ("iter", els)
+        if isinstance(f, ast.Name) and name == "len" and args:
             a = args[0]
-            if is_arr(a) and a[1]:
+            if is_arr(a) and a[1] and a[1][0] is not None:
                 return ("size", a[1][0])
             return OTHER
-        if name in ("float", "int", "abs"):
+        if isinstance(f, ast.Name) and name in ("float", "int", "abs"):
             return args[0] if args and isinstance(args[0], tuple) and args[0][0] in ("coord", "lidx", "gidx") else OTHER
+        if isinstance(f, ast.Name) and name in _SCALAR_BUILTINS:
+            return OTHER
+        if isinstance(f, ast.Attribute) and isinstance(f.value, ast.Name) and f.value.id == "math":
+            return OTHER
         # ---- numpy
         if isnp or (isinstance(f, ast.Name) and name in ("empty", "zeros", "ones", "ndarray")):
-            if name in ("empty", "zeros", "ones", "ndarray", "full") and args:
-                shp = args[0]
-                if isinstance(shp, list):
-                    return arr(tuple(s[1] if isinstance(s, tuple) and s[0] == "size" else
-                                     (UNIT if s == ("lit", 1) else STENCIL) for s in shp), None)
-                if isinstance(shp, tuple) and shp[0] == "size":
-                    return arr((shp[1],), None)
-                if isinstance(shp, tuple) and shp[0] in ("selfattr",):
-                    return OTHER
-                return arr((STENCIL,), None)
-            if name == "array" and e.args and isinstance(e.args[0], ast.List):
-                elts = e.args[0].elts
-                stars = [x for x in elts if isinstance(x, ast.Starred)]
-                if len(stars) == 1:
-                    mid = self.ev(stars[0].value)
-                    if is_arr(mid) and mid[1] and mid[1][0] and mid[1][0][0] == "Gm" and len(elts) - 1 == mid[1][0][2]:
-                        return arr((G(mid[1][0][1]),), None)
-                return arr((STENCIL,), None)
-            if name in ("real", "imag", "sqrt", "exp", "floor", "abs", "cos", "sin", "mod", "tanh", "conj", "full_like",
-                        "empty_like", "zeros_like", "atleast_1d", "array", "asarray"):
-                if args and is_arr(args[0]):
-                    more = [a for a in args[1:] if is_arr(a)]
-                    return self.broadcast([args[0]] + more, e) if more else arr(args[0][1], args[0][2] if name in ("real", "atleast_1d", "array", "asarray") else None)
-                return OTHER
-            if name in ("prod", "sum", "amin", "amax", "min", "max") and args and is_arr(args[0]):
-                ax = kw.get("axis")
-                if ax is None and len(e.args) > 1:
-                    ax = args[1]
-                if isinstance(ax, tuple) and ax[0] == "lit":
-                    ws = list(args[0][1])
-                    if -len(ws) <= ax[1] < len(ws):
-                        del ws[ax[1]]
-                    return arr(ws, None)
-                return OTHER
-            if name == "where":
-                arrs = [a for a in args if is_arr(a)]
-                return self.broadcast(arrs, e) if arrs else OTHER
-            if name in ("arange", "linspace", "eye", "fft.fftfreq", "fftfreq"):
-                if name == "fftfreq" and args and isinstance(args[0], tuple) and args[0][0] == "size":
-                    return arr((args[0][1],), None)
-                if name == "fftfreq":
-                    return arr((("G", None),), None)
-                if name == "arange" and len(args) == 1 and isinstance(args[0], tuple) and args[0][0] == "size":
-                    return arr((args[0][1],), None)
-                return arr((STENCIL,) * (2 if name == "eye" else 1), None)
-            if name == "atleast_2d" and args and is_arr(args[0]):
-                return arr((UNIT,) + tuple(args[0][1]), args[0][2])
-            arrs = [a for a in args if is_arr(a)]
-            return self.broadcast(arrs, e) if arrs else OTHER
-        if isinstance(f, ast.Attribute) and src(f.value) == "np.fft" and name == "fftfreq":
-            if args and isinstance(args[0], tuple) and args[0][0] == "size":
+            return self.np_call(e, name, args, kw)
+        if isinstance(f, ast.Attribute) and src(f.value) in ("np.fft", "numpy.fft") and name == "fftfreq":
+            if args and isinstance(args[0], tuple) and args[0][0] == "size" and args[0][1] is not None:
                 return arr((args[0][1],), None)
             return arr((("G", None),), None)
         # array methods
         if is_arr(recv):
-            if name in ("flatten", "copy", "conj", "astype"):
-                return recv
-            if name in ("min", "max", "sum"):
-                return OTHER
-            return OTHER
+            return self.array_method(recv, e, name, args, kw)
         # calls of repo functions with elementwise semantics (constants.iota(r))
-        if name == "iota" and args and is_arr(args[0]):
+        # AUDIT: by NAME - `iota` is the safety-factor profile of the Constants object (evaluated point by point at the radii it is
+        # given); only the windows of the argument are kept, the values are not typed
+        if name == "iota" and len(args) == 1 and not kw and is_arr(args[0]):
             return arr(args[0][1], None)
         # method summaries: self.step(...)
-        if isinstance(f, ast.Attribute) and isinstance(f.value, ast.Name) and f.value.id == "self" and name in self.summaries:
+        if self_call and name in self.summaries:
             self.check_call_against_summary(e, name, args, kw)
-            return OTHER
+            self.forget_effects_of(name)
+            return UNK
         if isinstance(recv, tuple) and recv[0] == "obj" and (recv[1], name) in self.obj_summaries:
             self.check_call_against_summary(e, name, args, kw, self.obj_summaries[(recv[1], name)])
-            return OTHER
-        if isinstance(f, ast.Attribute) and isinstance(f.value, ast.Name) and f.value.id == "self" and name in self.methods \
-                and self.depth < 3:
+            return UNK
+        if self_call and name in self.methods and self.depth < 3:
             m = self.methods[name]
             ps = [a.arg for a in m.args.args if a.arg != "self"]
             env = {}
@@ -648,12 +1270,17 @@ class IS:
             sub.run()
             self.nobs += sub.nobs
             self.chk.functions.add(f"{self.rel}:{sub.q}")
-            return getattr(sub, "ret", OTHER)
-        if isinstance(recv, tuple) and recv[0] == "grid" and name == "getSpline":
-            return OTHER
-        return OTHER
+            return getattr(sub, "ret", ("none",))
+        if self_call:
+            self.forget_effects_of(name)
+        return UNK                                           # AUDIT: a call the engine has no transfer function for
 
     def check_call_against_summary(self, e, name, args, kw, summ=None):
+        """AUDIT (C-slice-param): `req[p]` is the index space the callee's own table look-ups need for parameter p (from its
+        summary); the value that reaches p is found by binding the call's positional and keyword arguments to the callee's parameter
+        list (star-expanded calls never get here).  VIOLATED (1) the call passes an index typed in another space / along another
+        dimension; (2) p is not passed (keeps its default - it has one, or the call would fail) while the call sits in a loop over
+        that very dimension.  A passed value the engine cannot type gives no obligation"""
         summ = summ or self.summaries[name]            # {"params": [names], "req": {param: tag}}
         params = summ["params"]
         bound = {}
@@ -663,9 +1290,13 @@ class IS:
             bound[k] = v
         for p, want in summ["req"].items():
             got = bound.get(p)
+            if not (isinstance(want, tuple) and len(want) == 2 and want[0] in ("lidx", "gidx")):
+                continue
             if got is None:
+                if p not in params or len(args) > len(params):
+                    continue                                 # not a parameter of this summary: nothing is claimed
                 # default used: is a loop over that dimension active?
-                active = [n for n, t in self.loopvars if isinstance(t, tuple) and t[0] in ("lidx", "gidx") and t[1] == want[1]]
+                active = [n for n, t in self.loopvars if isinstance(t, tuple) and t[0] in ("lidx", "gidx") and t[1] == want[1] and want[1] is not None]
                 if active:
                     self.ob("C-slice-param", e, False,
                             f"`{name}` looks up per-{DIMNAMES.get(want[1], want[1])} tables with parameter `{p}` ({tname(want)}); the call is "
@@ -678,6 +1309,8 @@ class IS:
                 continue
             if isinstance(got, tuple) and got[0] in ("lidx", "gidx"):
                 ok = got == want or (got[1] == want[1] and not self.ctx.distributed(want[1]))
+                if not ok and (got[1] is None or want[1] is None):
+                    ok = None                                # a dimension is not established
                 self.ob("C-slice-param", e, ok, f"`{p}` of `{name}` needs {tname(want)}; the call passes {tname(got)}",
                         construct=src(e)[:90] + f" [{p}]")
             elif isinstance(got, tuple) and got[0] == "param":
@@ -696,13 +1329,18 @@ class IS:
             if kinds == {"axis", "dim"}:
                 a = [n for k, n in reqs if k == "axis"][0]
                 d = [n for k, n in reqs if k == "dim"][0]
-                self.ob("C-sort", d, False, f"parameter `{p}` is used as a layout axis in `{src(a)[:50]}` and as a dimension number in "
-                        f"`{src(d)[:50]}`: the two only coincide for the identity ordering", construct=f"{p}: {src(a)[:40]} / {src(d)[:40]}")
+                # AUDIT: both uses are subscripts of tables whose ORDERING is known (per-axis tables of a Layout / DimLists) by the
+                # one parameter, which is never re-bound in the function (checked below): the two sorts coincide only for the identity
+                rebound = self.param_rebound(p)
+                self.ob("C-sort", d, None if rebound else False, f"parameter `{p}` is used as a layout axis in `{src(a)[:50]}` and as a dimension number in "
+                        f"`{src(d)[:50]}`: the two only coincide for the identity ordering" +
+                        (" - but the parameter is re-bound in the function: the two uses may see different values" if rebound else ""),
+                        construct=f"{p}: {src(a)[:40]} / {src(d)[:40]}")
             else:
                 n = reqs[0][1]
                 self.ob("C-sort", n, True, f"parameter `{p}` is consistently a {'layout axis' if 'axis' in kinds else 'dimension number'}",
                         construct=f"{p}: {sorted(kinds)}")
-        for p, reqs in self.param_req.items():
+        for p, reqs in list(self.param_req.items()):
             tags = {}
             for t, node, why in reqs:
                 tags.setdefault(t, []).append((node, why))
@@ -714,101 +1352,301 @@ class IS:
                 if ks == {"lidx", "gidx"} and self.ctx.distributed(d if d is not None else 0):
                     a = tags[("lidx", d)][0]
                     b = tags[("gidx", d)][0]
-                    self.ob("C-same-index", a[0], False,
+                    # AUDIT: the two subscripts use the SAME value (the parameter is not re-bound between them) on a Local(d) and on a
+                    # Global(d) axis of a known d
+                    und = self.param_rebound(p) or d is None
+                    self.ob("C-same-index", a[0], None if und else False,
                             f"parameter `{p}` {a[1]} (a local index) and also {b[1]} (a global index): for a distributed "
-                            f"{DIMNAMES.get(d, d)} one of the two tables is read at another process's rows",
+                            f"{DIMNAMES.get(d, d)} one of the two tables is read at another process's rows" +
+                            (" - not established (the parameter is re-bound / the dimension is unknown)" if und else ""),
                             construct=f"{p}: {src(a[0])[:40]} / {src(b[0])[:40]}")
                 elif len(ks) == 1:
                     pass
+            dims = {d for d in by_dim if d is not None}
+            if len(dims) > 1:
+                # AUDIT: one parameter required as an index along two DIFFERENT dimensions: no single requirement can be handed to the
+                # callers (a summary that picked one of them would judge the call sites against an arbitrary choice)
+                a = reqs[0]
+                self.ob("C-same-index", a[1], None, f"parameter `{p}` subscripts axes of different dimensions "
+                        f"({', '.join(sorted(str(DIMNAMES.get(d, d)) for d in dims))}): its index space is not established",
+                        construct=f"{p}: {', '.join(sorted(str(DIMNAMES.get(d, d)) for d in dims))}")
+                del self.param_req[p]
+
+    def param_rebound(self, p):
+        return any(isinstance(n, ast.Name) and n.id == p and isinstance(n.ctx, (ast.Store, ast.Del)) for n in ast.walk(self.fn))
 
     def block(self, stmts):
         for st in stmts:
             self.stmt(st)
 
+    # ---- dry passes
+    def _snapshot(self):
+        return (dict(self.env), dict(self.attrs), {k: list(v) for k, v in self.param_req.items()}, {k: list(v) for k, v in self.sort_req.items()},
+                dict(self.node_tags), list(self.loopvars), self.nobs, self.__dict__.get("ret", _NORET), self.chk,
+                {k: (list(v) if isinstance(v, list) else v) for k, v in self.__dict__.items() if k in ("iter_windows",)})
+
+    def _restore(self, snap):
+        env, attrs, pr, sr, nt, lv, nobs, ret, chk, extra = snap
+        self.env = env
+        self.attrs.clear()
+        self.attrs.update(attrs)
+        self.param_req, self.sort_req, self.node_tags, self.loopvars, self.nobs, self.chk = pr, sr, nt, lv, nobs, chk
+        if ret is _NORET:
+            self.__dict__.pop("ret", None)
+        else:
+            self.ret = ret
+        self.__dict__.update(extra)
+
+    def loop_carried(self, st, bind):
+        """AUDIT: the body of a loop is typed once, with the values its names have on ENTRY to an iteration.  A name / attribute the
+        body re-binds with another tag has, at the top of the next iteration, the tag from the END of the body: a dry pass over the
+        body finds those; they are joined before the body is typed for the record"""
+        names, attrs = _stored_names(st.body)
+        calls_self = any(isinstance(n, ast.Call) and isinstance(n.func, ast.Attribute) and isinstance(n.func.value, ast.Name) and n.func.value.id == "self"
+                         for b_ in st.body for n in ast.walk(b_))
+        if not ((names & set(self.env)) or (attrs & set(self.attrs)) or (calls_self and self.attrs)):
+            return
+        for _ in range(3):
+            snap = self._snapshot()
+            env0, attrs0 = dict(self.env), dict(self.attrs)
+            self.chk = _MuteChk(snap[8])
+            try:
+                bind()
+                self.block(st.body)
+                env1, attrs1 = dict(self.env), dict(self.attrs)
+            finally:
+                self._restore(snap)
+            changed = False
+            for k, v in env0.items():
+                if k in env1 and env1[k] != v:
+                    j = v if v == [] and is_arr(env1[k]) and len(env1[k][1]) == 1 else join_vals(v, env1[k])
+                    if j != v:
+                        self.env[k] = j
+                        changed = True
+            for k, v in attrs0.items():
+                if k in attrs1 and attrs1[k] != v:
+                    j = v if v == [] and is_arr(attrs1[k]) and len(attrs1[k][1]) == 1 else join_vals(v, attrs1[k])
+                    if j != v:
+                        self.attrs[k] = j
+                        changed = True
+            if not changed:
+                return
+
+    def join_env(self, env1, env2, attrs1=None, attrs2=None):
+        out = {}
+        for k in set(env1) | set(env2):
+            if k in env1 and k in env2:
+                out[k] = join_vals(env1[k], env2[k])
+            else:
+                out[k] = env1[k] if k in env1 else env2[k]     # bound on one path only (a use elsewhere would be a NameError)
+        self.env = out
+        if attrs1 is not None:
+            outa = {}
+            for k in set(attrs1) | set(attrs2):
+                if k in attrs1 and k in attrs2:
+                    outa[k] = join_vals(attrs1[k], attrs2[k])
+                else:
+                    outa[k] = attrs1[k] if k in attrs1 else attrs2[k]
+            self.attrs.clear()
+            self.attrs.update(outa)
+
+    @staticmethod
+    def _leaves(stmts):
+        """does the block always leave (return / raise / continue / break as its last statement)?"""
+        return bool(stmts) and isinstance(stmts[-1], (ast.Return, ast.Raise, ast.Continue, ast.Break))
+
     def stmt(self, st):
         if isinstance(st, ast.Assign):
             v = self.ev(st.value)
             for t in st.targets:
-                self.assign(t, v, st)
+                self.assign(t, v, st, st.value)
         elif isinstance(st, ast.AugAssign):
             v = self.ev(st.value)
             cur = self.ev(st.target)
             if is_arr(cur) and is_arr(v):
-                self.broadcast([cur, v], st)
-        elif isinstance(st, ast.AnnAssign) and st.value is not None:
-            self.assign(st.target, self.ev(st.value), st)
+                self.broadcast([cur, v], st)                 # in place: the target keeps its windows
+            elif is_arr(cur):
+                pass
+            elif isinstance(st.target, (ast.Name, ast.Attribute)):
+                # AUDIT: `i += start` changes the index space of i: the new tag is that of `i + start`
+                self.assign(st.target, self.binop(st.op, cur, v, st), st, None)
+        elif isinstance(st, ast.AnnAssign):
+            if st.value is not None:
+                self.assign(st.target, self.ev(st.value), st, st.value)
         elif isinstance(st, ast.Expr):
             self.ev(st.value)
-        elif isinstance(st, ast.For):
+        elif isinstance(st, (ast.For, ast.AsyncFor)):
             it = self.ev(st.iter)
-            tags = OTHER
-            if isinstance(it, tuple) and it[0] == "iter":
-                tags = it[1]
-            elif is_arr(it):
-                tags = it[2] if it[2] is not None and len(it[1]) == 1 else OTHER
-            names = self.bind_loop(st.target, tags)
+            tags = self.element_tags(it)
+
+            def bind():
+                return self.bind_loop(st.target, tags)
+            self.loop_carried(st, bind)
+            env0, attrs0 = dict(self.env), dict(self.attrs)
+            names = bind()
             self.loopvars.extend(names)
             self.block(st.body)
             for _ in names:
                 self.loopvars.pop()
+            self.join_env(env0, self.env, attrs0, dict(self.attrs))      # zero iterations
             self.block(st.orelse)
         elif isinstance(st, ast.While):
+            self.loop_carried(st, lambda: None)
             self.ev(st.test)
+            env0, attrs0 = dict(self.env), dict(self.attrs)
             self.block(st.body)
+            self.join_env(env0, self.env, attrs0, dict(self.attrs))
+            self.block(st.orelse)
         elif isinstance(st, ast.If):
             self.ev(st.test)
-            env0 = dict(self.env)
+            env0, attrs0 = dict(self.env), dict(self.attrs)
             self.block(st.body)
-            env1 = self.env
+            env1, attrs1 = self.env, dict(self.attrs)
             self.env = dict(env0)
+            self.attrs.clear()
+            self.attrs.update(attrs0)
             self.block(st.orelse)
-            env2 = self.env
-            out = {}
-            for k in set(env1) | set(env2):
-                a, b = env1.get(k, OTHER), env2.get(k, OTHER)
-                out[k] = a if a == b else (a if b == OTHER and k not in env2 else b if a == OTHER and k not in env1 else OTHER)
-            self.env = out
-        elif isinstance(st, ast.With):
+            env2, attrs2 = self.env, dict(self.attrs)
+            l1, l2 = self._leaves(st.body), self._leaves(st.orelse)
+            if l1 and not l2:
+                pass                                         # only the else path goes on
+            elif l2 and not l1:
+                self.env = env1
+                self.attrs.clear()
+                self.attrs.update(attrs1)
+            else:
+                self.join_env(env1, env2, attrs1, attrs2)
+        elif isinstance(st, (ast.With, ast.AsyncWith)):
             for it in st.items:
                 self.ev(it.context_expr)
+                if it.optional_vars is not None:
+                    self.assign(it.optional_vars, UNK, st, None)
             self.block(st.body)
         elif isinstance(st, ast.Return):
-            if st.value is not None:
-                self.ret = self.ev(st.value)
+            v = self.ev(st.value) if st.value is not None else ("none",)
+            if "ret" in self.__dict__ and self.ret != v:
+                # AUDIT: several return statements: the value of the call is the join of theirs
+                v = join_vals(self.ret, v)
+            self.ret = v
         elif isinstance(st, ast.Assert):
             self.ev(st.test)
-        elif isinstance(st, (ast.Try,)):
+        elif isinstance(st, ast.Try) or type(st).__name__ == "TryStar":
+            env0, attrs0 = dict(self.env), dict(self.attrs)
             self.block(st.body)
+            names, attrs = _stored_names(st.body)
+            envb, attrsb = dict(self.env), dict(self.attrs)
+            self.block(st.orelse)
+            ends = [(dict(self.env), dict(self.attrs))]
+            for h in st.handlers:
+                # a handler starts anywhere in the body: what the body binds has its old or its new value
+                self.env = dict(envb)
+                self.attrs.clear()
+                self.attrs.update(attrsb)
+                for n in names:
+                    if env0.get(n, _NORET) != envb.get(n, _NORET) and n in self.env:
+                        self.env[n] = UNK
+                for a in attrs:
+                    if attrs0.get(a, _NORET) != attrsb.get(a, _NORET) and a in self.attrs:
+                        self.attrs[a] = UNK
+                if h.type is not None:
+                    self.ev(h.type)
+                if h.name:
+                    self.env[h.name] = UNK
+                self.block(h.body)
+                if not self._leaves(h.body):
+                    ends.append((dict(self.env), dict(self.attrs)))
+            env, attrs_ = ends[0]
+            self.env = env
+            self.attrs.clear()
+            self.attrs.update(attrs_)
+            for env_h, attrs_h in ends[1:]:
+                self.join_env(dict(self.env), env_h, dict(self.attrs), attrs_h)
+            self.block(st.finalbody)
+        elif isinstance(st, (ast.Pass, ast.Break, ast.Continue, ast.Global, ast.Nonlocal)):
+            pass
+        elif isinstance(st, ast.Raise):
+            if st.exc is not None:
+                self.ev(st.exc)
+        elif isinstance(st, ast.Delete):
+            names, attrs = _stored_names([st])
+            self.forget(names, attrs)
+        else:
+            # AUDIT: a statement form the engine does not interpret (nested def / class, import, match, ...): every name it may bind
+            # is forgotten; nothing inside it is typed
+            names, attrs = _stored_names([st])
+            for n in names:
+                self.env[n] = UNK
+            self.forget(attrs=attrs)
 
     def bind_loop(self, target, tags):
         names = []
         if isinstance(target, ast.Name):
-            t = tags if isinstance(tags, tuple) else OTHER
+            t = tags if isinstance(tags, tuple) else UNK
             self.env[target.id] = t
             names.append((target.id, t))
-        elif isinstance(target, ast.Tuple):
-            lst = tags if isinstance(tags, list) else [OTHER] * len(target.elts)
-            for e, t in zip(target.elts, lst + [OTHER] * len(target.elts)):
-                names.extend(self.bind_loop(e, t))
+        elif isinstance(target, (ast.Tuple, ast.List)):
+            if any(isinstance(x, ast.Starred) for x in target.elts):
+                lst = [UNK] * len(target.elts)
+            elif isinstance(tags, list) and len(tags) == len(target.elts):
+                lst = tags
+            elif is_arr(tags) and len(tags[1]) == 1:
+                lst = [tags[2] if tags[2] is not None else OTHER] * len(target.elts)
+            else:
+                lst = [UNK] * len(target.elts)
+            for e, t in zip(target.elts, lst):
+                names.extend(self.bind_loop(e.value if isinstance(e, ast.Starred) else e, UNK if isinstance(e, ast.Starred) else t))
+        else:
+            self.assign(target, tags if isinstance(tags, tuple) else UNK, target, None)
         return names
 
-    def assign(self, t, v, st):
+    def assign(self, t, v, st, value_node=None):
         if isinstance(t, ast.Name):
             self.env[t.id] = v
-        elif isinstance(t, ast.Tuple):
-            if isinstance(v, list) and len(v) == len(t.elts):
-                for e, x in zip(t.elts, v):
-                    self.assign(e, x, st)
-            else:
+        elif isinstance(t, (ast.Tuple, ast.List)):
+            if isinstance(v, list) and len(v) == len(t.elts) and not any(isinstance(x, ast.Starred) for x in t.elts):
+                velts = value_node.elts if isinstance(value_node, (ast.Tuple, ast.List)) and len(value_node.elts) == len(t.elts) else [None] * len(t.elts)
+                for e, x, n_ in zip(t.elts, v, velts):
+                    self.assign(e, x, st, n_)
+            elif is_arr(v) and len(v[1]) == 1 and not any(isinstance(x, ast.Starred) for x in t.elts):
                 for e in t.elts:
-                    self.assign(e, OTHER, st)
+                    self.assign(e, v[2] if v[2] is not None else OTHER, st, None)
+            else:
+                # AUDIT: unpacking a value that is not a display of known length: the parts are not modelled
+                for e in t.elts:
+                    self.assign(e.value if isinstance(e, ast.Starred) else e, UNK, st, None)
+        elif isinstance(t, ast.Starred):
+            self.assign(t.value, UNK, st, None)
         elif isinstance(t, ast.Attribute) and isinstance(t.value, ast.Name) and t.value.id == "self":
             self.attrs[t.attr] = v
+        elif isinstance(t, ast.Attribute):
+            self.ev(t.value)
         elif isinstance(t, ast.Subscript):
+            base = self.node_tags.get(id(t.value))
             tv = self.ev(t)      # performs the index checks on the target
+            base = self.node_tags.get(id(t.value), base)
             if is_arr(tv) and is_arr(v):
                 self.broadcast([tv, v], st)
             # stores through a [:] into an attribute created by np.ndarray keep the attribute's windows
+            if isinstance(base, list):
+                # an element store into a python list the engine has a tag for: the element (any element, for an index that is not a
+                # literal) now has the stored tag
+                idx = self.node_tags.get(id(t.slice))
+                new = None
+                if isinstance(idx, tuple) and idx[0] == "lit" and -len(base) <= idx[1] < len(base) and not isinstance(v, list):
+                    new = type(base)(base) if isinstance(base, DimList) else list(base)
+                    new[idx[1]] = v
+                elif not isinstance(v, list) and not isinstance(t.slice, ast.Slice):
+                    j = [x if x == v else (UNK if isinstance(x, list) else join_tags(x, v)) for x in base]
+                    new = DimList(j) if isinstance(base, DimList) else j
+                else:
+                    new = UNK
+                if isinstance(t.value, ast.Name):
+                    self.env[t.value.id] = new
+                elif isinstance(t.value, ast.Attribute) and isinstance(t.value.value, ast.Name) and t.value.value.id == "self":
+                    self.attrs[t.value.attr] = new
+
+
+_NORET = object()
 
 
 def retag(t, d):
@@ -841,7 +1679,11 @@ def load_layout_tables(chk):
                         and n.targets[0].id.startswith("layout"):
                     for k, v in zip(n.value.keys, n.value.values):
                         if isinstance(k, ast.Constant) and isinstance(v, (ast.List, ast.Tuple)):
-                            o = tuple(x.value for x in v.elts if isinstance(x, ast.Constant))
+                            # AUDIT: an ordering is a fact only when every entry is an integer literal (an entry that is an
+                            # expression is not dropped: the layout is then not recorded and its uses stay untyped)
+                            if not all(isinstance(x, ast.Constant) and isinstance(x.value, int) and not isinstance(x.value, bool) for x in v.elts):
+                                continue
+                            o = tuple(x.value for x in v.elts)
                             key = (k.value, len(o))
                             if key in LAYOUT_ORDERS and LAYOUT_ORDERS[key] != o:
                                 raise AnalysisError(f"layout `{k.value}` has two different orderings in the set-up code")
@@ -869,16 +1711,23 @@ def ambient_from_asserts(fn: ast.FunctionDef):
     (directly or through a local), and relations `a.dims_order[1:] == b.dims_order`."""
     out = {}
     loc = {}
+    stores = {}
+    for n in ast.walk(fn):
+        if isinstance(n, ast.Name) and isinstance(n.ctx, (ast.Store, ast.Del)):
+            stores[n.id] = stores.get(n.id, 0) + 1
     for n in fn.body:
-        if isinstance(n, ast.Assign) and isinstance(n.targets[0], ast.Name) and isinstance(n.value, ast.Call) \
+        if isinstance(n, ast.Assign) and len(n.targets) == 1 and isinstance(n.targets[0], ast.Name) and isinstance(n.value, ast.Call) \
                 and isinstance(n.value.func, ast.Attribute) and n.value.func.attr == "getLayout" \
-                and isinstance(n.value.func.value, ast.Name):
-            a = n.value.args[0] if n.value.args else None
+                and isinstance(n.value.func.value, ast.Name) and len(n.value.args) == 1 and not n.value.keywords:
+            a = n.value.args[0]
             g = n.value.func.value.id
-            if a is not None and src(a).endswith(".currentLayout"):
+            # the local stands for the current layout only when it is bound once
+            if src(a).endswith(".currentLayout") and stores.get(n.targets[0].id) == 1:
                 loc[n.targets[0].id] = (g, src(a).split(".")[0])
     rel = []
-    for n in ast.walk(fn):
+    # AUDIT: an assertion states the layout of the whole function only when it is executed unconditionally: statements of the
+    # function's own block (asserts inside branches / loops / handlers hold on their path only and are not used)
+    for n in fn.body:
         if isinstance(n, ast.Assert) and isinstance(n.test, ast.Compare) and len(n.test.ops) == 1 \
                 and isinstance(n.test.ops[0], ast.Eq):
             lft, rgt = n.test.left, n.test.comparators[0]
@@ -891,12 +1740,14 @@ def ambient_from_asserts(fn: ast.FunctionDef):
                         g, cur = loc[b.id]
                         return g, cur
                     if isinstance(b, ast.Call) and isinstance(b.func, ast.Attribute) and b.func.attr == "getLayout" \
-                            and isinstance(b.func.value, ast.Name):
+                            and isinstance(b.func.value, ast.Name) and len(b.args) == 1 and not b.keywords:
                         a = b.args[0]
+                        if not src(a).endswith(".currentLayout"):
+                            return None                      # the ordering of a layout named otherwise, not of the current one
                         return b.func.value.id, src(a).split(".")[0]
                 return None
             gl = grid_of(lft)
-            if gl and isinstance(rgt, ast.Tuple) and all(isinstance(x, ast.Constant) for x in rgt.elts):
+            if gl and isinstance(rgt, (ast.Tuple, ast.List)) and all(isinstance(x, ast.Constant) and isinstance(x.value, int) for x in rgt.elts):
                 if gl[0] == gl[1]:
                     out[gl[0]] = tuple(x.value for x in rgt.elts)
             elif isinstance(lft, ast.Subscript) and isinstance(lft.slice, ast.Slice):
@@ -911,6 +1762,14 @@ def ambient_from_asserts(fn: ast.FunctionDef):
     for a, b in rel:
         if a in out and b not in out:
             out[b] = out[a][1:]
+    # AUDIT: the asserted ordering is that of the grid's layout for the whole function only when the function does not change the
+    # layout of that grid itself (X.setLayout(...)) and does not re-bind the name
+    for n in ast.walk(fn):
+        if isinstance(n, ast.Call) and isinstance(n.func, ast.Attribute) and n.func.attr == "setLayout" and isinstance(n.func.value, ast.Name):
+            out.pop(n.func.value.id, None)
+            out.pop(n.func.value.id + "[-1]", None)
+    for g in [k for k in out if stores.get(k.split("[")[0], 0) > 0]:
+        out.pop(g)
     return out
 
 
